@@ -633,6 +633,23 @@ theorem swap_adjacent_two_args (l₁ l₂ : List Str) (n v s₂ : Str) (o : Opt)
   rw [e1, e2]
   exact same_of_swap _ _ _ _ hf
 
+/-- SPELLINGS, anywhere on the line: behind any arguments that are one token each, the occurrence of an option may be
+written in any of its spellings — the whole command line is parsed to the same record -/
+theorem respell_anywhere (pre rest : List Str) (n n' v : Str) (c : Char) (o : Opt)
+    (hpre : OneTokenEach pre)
+    (hn : findOpt n = some o) (hp : plainName n = true) (hn' : findOpt n' = some o) (hp' : plainName n' = true)
+    (hc : findShort c = some o) (hk : o.kind ≠ .flag)
+    (hv : isValue v = true) (hv0 : v ≠ []) (hv1 : v.head? ≠ some '=') :
+    let canonical := parseArgs (pre ++ ('-' :: '-' :: (n ++ '=' :: v)) :: rest)
+    parseArgs (pre ++ ('-' :: '-' :: (n' ++ '=' :: v)) :: rest) = canonical ∧
+    parseArgs (pre ++ ('-' :: '-' :: n') :: v :: rest) = canonical ∧
+    parseArgs (pre ++ ['-', c] :: v :: rest) = canonical ∧
+    parseArgs (pre ++ ('-' :: c :: '=' :: v) :: rest) = canonical ∧
+    parseArgs (pre ++ ('-' :: c :: v) :: rest) = canonical := by
+  have h := option_spellings n n' v c o rest hn hp hn' hp' hc hk hv hv0 hv1
+  simp only at h
+  simp only [parseArgs, lexAll_append_oneToken _ _ hpre, h.1, h.2.1, h.2.2.1, h.2.2.2.1, h.2.2.2.2, and_self]
+
 /-- non-vacuity, and the spellings on a concrete line -/
 example : parseArgs ["--choose=.a".toList, "--skip=2".toList, "--unique".toList, "f.json".toList]
     = parseArgs ["-uc".toList, ".a".toList, "-k2".toList, "f.json".toList] := by
